@@ -483,6 +483,51 @@ Definition chk_spec (c : CaseT) : bool :=
 '''
 
 
+SEQ_PREAMBLE = '''
+Definition SeqT := (Z * nat * list (option (list Z)) * Z)%type.
+Definition out_eqb (a : res (list Z)) (b : option (list Z)) : bool :=
+  match a, b with
+  | Ok x, Some y => list_eqb x y
+  | Err ValueError, None => true
+  | _, _ => false
+  end.
+Fixpoint outs_eqb (a : list (res (list Z))) (b : list (option (list Z))) : bool :=
+  match a, b with
+  | [], [] => true
+  | x :: xs, y :: ys => out_eqb x y && outs_eqb xs ys
+  | _, _ => false
+  end.
+Definition chk_seq (c : SeqT) : bool :=
+  let '(start, k, outs, fin) := c in
+  let '(rs, st) := get_seqs k {| sq_num := start |} in
+  outs_eqb rs outs && Z.eqb (sq_num st) fin.
+'''
+
+
+def seq_model_cases(ctx, n):
+    """real ConnectionState.getSeqNumBytes, k consecutive calls from starting points next to every carry"""
+    from tlslite.recordlayer import ConnectionState
+    lits, meta = [], []
+    starts = [e + d for e in SEQ_EDGES for d in (-1, 0, 1) if e + d >= 0] + [2**64 - 2, 2**64 - 1, 2**64]
+    starts += [ctx.rng.randrange(2**64) for _ in range(n)]
+    for start in starts:
+        k = ctx.rng.choice([1, 2, 3, 5])
+        st = ConnectionState()
+        st.seqnum = start
+        outs = []
+        for _ in range(k):
+            try:
+                outs.append('(Some %s)' % blit(bytes(st.getSeqNumBytes())))
+            except ValueError:
+                outs.append('None')
+            except Exception as e:  # noqa
+                outs.append('(Some [%d])' % (1000 + EXC.get(type(e).__name__, 100)))      # never equal to a model output
+        fin = st.seqnum if isinstance(st.seqnum, int) else -1
+        lits.append('(%s, %d%%nat, [%s], %s)' % (zlit(start), k, ';'.join(outs), zlit(fin)))
+        meta.append((start, k))
+    return lits, meta
+
+
 def jcase(c):
     return {k: (v.hex() if isinstance(v, (bytes, bytearray)) else v) for k, v in c.items()}
 
@@ -523,7 +568,7 @@ def run(ctx):
     if not ok:
         tie_broken = msg
     res = vlib.proof_stage(ctx, 'Props/C12.v',
-                           model_targets=['Gen/ConstantTime.vo', 'Spec/CbcCheck.vo', 'Toy/ToyMac.vo'])
+                           model_targets=['Gen/ConstantTime.vo', 'Spec/CbcCheck.vo', 'Toy/ToyMac.vo', 'Model/C12_Seq.vo'])
     ctx.log('proof stage ok=%s failing=%s' % (res['ok'], res['failing']))
     ctx.cov['trusted_base'] = [
         'Coq 8.16.1 kernel + vm_compute (case evaluation)',
@@ -626,6 +671,17 @@ def run(ctx):
             tie_broken = 'helper evaluation failed: ' + e[:300]
         for i in badh[:3]:
             tie_broken = 'generated %s disagrees with implementation on %r' % (hm[i][0], hm[i][1:])
+        sl, sm = seq_model_cases(ctx, 30 if quick else 400)
+        bads, errs = vlib.coq_bad_indices('C12s', ['Model.C12_Seq'], 'SeqT', 'chk_seq', sl, shard=400, preamble=SEQ_PREAMBLE)
+        ctx.count('seqnum-model-vs-impl', len(sl), [(m[0].bit_length(), m[1]) for m in sm])
+        for e in errs:
+            tie_broken = 'sequence-number evaluation failed: ' + e[:300]
+        for i in bads[:3]:
+            # the model refuses at 2^64 and never wraps: a disagreement is a wrong sequence number on the wire
+            found = True
+            ctx.violation('seqnum!=model:start=2^%d' % max(0, sm[i][0].bit_length() - 1),
+                          'ConnectionState.getSeqNumBytes, %d calls from sequence number %d, differs from the 8-byte big-endian '
+                          'counter (Model/C12_Seq.v)' % (sm[i][1], sm[i][0]), {'start': sm[i][0], 'calls': sm[i][1], 'case': sl[i]})
     elif not res['model_ok']:
         tie_broken = tie_broken or ('generated model does not compile: %s' % res['failing'])
     ctx.cov['rule'] = ('cases = honest sender output (payload 0..%d, every pad byte class, 4 versions, 4 real HMACs + toy MACs) '
